@@ -805,11 +805,9 @@ func integer(sign int64, s string) (Integer, error) {
 }
 
 func float(sign float64, s string) (Float, error) {
-	bf, _, _ := big.ParseFloat(s, 10, 0, big.ToZero)
-	bf.Mul(big.NewFloat(sign), bf)
-
-	f, _ := bf.Float64()
-	return Float(f), nil
+	// strconv.ParseFloat rounds the decimal literal to the nearest float64 in one step.
+	f, _ := strconv.ParseFloat(s, 64)
+	return Float(sign * f), nil
 }
 
 var (
